@@ -90,6 +90,7 @@ type Frame struct {
 	snaps       map[string]*State
 	deferCell   map[*ssa.Defer]*Cell // flags of defers that not every return passes
 	callRes     map[string]Val       // result_of(k, f): by call position
+	callArgs    map[string][]Val     // arg_of(k, f, i)
 	oldOverride *State
 }
 
@@ -978,6 +979,24 @@ func (e *Exec) instr(fr *Frame, st *State, ins ssa.Instruction) {
 			e.siteAsserts(fr, st, call.Pos(), 2)
 		}
 	case *ssa.Call:
+		if fr.spec != nil && e.pure == 0 && x.Pos() != token.NoPos {
+			// arg_of(k, f, i): receiver first (the interface value of an invoke, else the first argument of a method
+			// call), then the arguments as written
+			var vs []Val
+			if x.Call.IsInvoke() {
+				vs = append(vs, e.operand(fr, x.Call.Value))
+			} else if f := x.Call.StaticCallee(); f == nil || f.Signature.Recv() == nil {
+				vs = append(vs, Val{})
+			}
+			for _, a := range x.Call.Args {
+				vs = append(vs, e.operand(fr, a))
+			}
+			if fr.callArgs == nil {
+				fr.callArgs = map[string][]Val{}
+			}
+			pp := e.eng.fset.Position(x.Pos())
+			fr.callArgs[fmt.Sprintf("%s:%d", pp.Filename, pp.Offset)] = vs
+		}
 		e.siteAsserts(fr, st, x.Pos(), 1)
 		fr.vals[x] = e.call(fr, st, x, &x.Call)
 		if fr.spec != nil && e.pure == 0 && x.Pos() != token.NoPos {
